@@ -156,3 +156,36 @@ def search(rep: C.Report, tier: str, broken):
                                   {"model": "toy1", "E_multiplied_by": dE, "phase": ph, "T": float(T), "identity": b[0], "values": b[1:],
                                    "how": "models.make_thermo(toy1); model.E *= dE; freeEnergy*.tracePhase(same range) again; setExtrapolate()"},
                                   finding_key=f"C10:retrace:{b[0]}")
+    # ---- a two-field model whose second field is a spectator (zero in both phases), low-T phase requested PAST its spinodal with the default
+    # re-minimisation at each step: the tabulated range must end where the phase ends, and inside it p = -Veff(min), 0 < cs^2 < 1
+    # (with the looser tracing tolerance 1e-4 the minimiser rolls over the barrier on the last step before the spinodal for these parameter sets)
+    specs = [(dict(E=0.07, lam=0.12), 1e-6, 0.6), (dict(D=0.15, E=0.08, lam=0.11), 1e-4, 0.6), (dict(E=0.05, lam=0.09), 1e-4, 0.5)]
+    if tier == "thorough":
+        specs += [({}, 1e-6, 0.6), ({}, 1e-4, 0.6), (dict(D=0.15, E=0.08, lam=0.11), 1e-4, 0.7), (dict(D=0.15, E=0.08, lam=0.11), 1e-6, 0.6)]
+    for params, rTol_, tf_ in specs:
+        try:
+            th, model, info = models.make_thermo("toy2", params, TnFrac=tf_, tminFrac=0.8, tmaxFrac=1.5, cross=True, rTol=rTol_)
+        except Exception as ex:  # noqa: BLE001
+            rep.violation("Thermodynamics of a two-field model (spectator field) cannot be set up when the requested low-T range reaches past the spinodal",
+                          {"model": "toy2", "params": params, "error": f"{type(ex).__name__}: {str(ex)[:200]}"}, finding_key="C10:spectator:raises")
+            continue
+        ref = info["ref"]
+        T1 = info["T1"]
+        rep.case(key=("spectator-cross", str(sorted(params.items())), rTol_, tf_))
+        rep.count("spectator model, range past the spinodal")
+        inf_ = {"model": "toy2 (first-order field + spectator)", "params": params, "rTol": rTol_, "TnFrac": tf_, "TMaxLowT": float(th.TMaxLowT), "spinodal_T1": float(T1),
+                "flag_upper_end": bool(th.freeEnergyLow.maxPossibleTemperature[1]),
+                "how": "models.make_thermo('toy2', params, TnFrac=0.6, tminFrac=0.8, tmaxFrac=1.5, cross=True)"}
+        if th.TMaxLowT > T1 * (1 + 1e-5):
+            rep.violation("the tabulated range of the low-T phase reaches beyond the temperature where the phase ceases to exist", inf_,
+                          finding_key="C10:spectator:range")
+            continue
+        worst = 0.0
+        for T in np.linspace(th.TMinLowT + 0.02 * (th.TMaxLowT - th.TMinLowT), th.TMaxLowT - 0.02 * (th.TMaxLowT - th.TMinLowT), 25):
+            P, CS = float(th.pLowT(T)), float(th.csqLowT(T))
+            ex = float(-ref.VBroken(T))
+            worst = max(worst, abs(P - ex) / abs(ex))
+            if abs(P - ex) > max(1e-5, 30 * rTol_) * abs(ex) or not 0 < CS < 1:
+                rep.violation("inside the tabulated range of the low-T phase p is not -Veff(min) or the sound speed is not in (0,1)",
+                              dict(inf_, T=float(T), p=P, minus_Veff_min=ex, csq=CS), finding_key="C10:spectator:inside")
+                break
